@@ -168,6 +168,10 @@ def parse(text):
                         raise Unreadable("unexpected %r in switch" % lines[i])
                 stmts.append(("switch", sel, cases))
             elif toks[0] in ("end", "case"):
+                # RTLIL case-rule semantics: a body is a list of actions plus a list of switches, and all actions take effect
+                # before any switch, whatever their order in the text (an assign meant to override a preceding switch must
+                # itself be wrapped in `switch {} case`, as the backend does)
+                stmts = [s for s in stmts if s[0] == "assign"] + [s for s in stmts if s[0] == "switch"]
                 return stmts, i
             elif toks[0] == "sync":
                 raise Unreadable("process sync rules are not part of the emitted subset")
